@@ -17,7 +17,12 @@
    engine).  Ghosts used only to state what a reader may see: [hist] is the list of all values of the
    abstract map so far (one more per update), [froz g] the index in [hist] at which version g was
    replaced, [hst] the length of [hist] when the reader loaded its table, [hwit] the index of the map
-   it is shown to have read, [happ] how many times a writer has applied its function.  No proofs here. *)
+   it is shown to have read, [happ] how many times a writer has applied its function.
+
+   Iteration (Range) loads the table pointer once (I0) and then reads the buckets of that table in order,
+   each in one step under the bucket's lock (I1): [hyield] is what it has yielded so far, per key (a key
+   lives in one bucket of a table version, so it is yielded at most once — the sequential theorems'
+   layout), [hwitf] the ghost index of the map each key's binding was read from.  No proofs here. *)
 From Coq Require Import List Arith Bool ZArith.
 Import ListNotations.
 Local Open Scope nat_scope.
@@ -26,7 +31,8 @@ Inductive hpc :=
 | W0 | W1 | W2 | Wwait | W3 | W4 | W5 | W6
 | R0 | Rwait | R1 | R2 | R3
 | HDone
-| G0 | G1 | GDone.
+| G0 | G1 | GDone
+| I0 | I1 | IDone.
 
 Record hthread := mkHth {
   hpc_ : hpc; hkey : Z; hfun : option Z -> option Z;
@@ -34,7 +40,9 @@ Record hthread := mkHth {
   hcop : nat -> bool; hnt : Z -> option Z; hnlen : nat;   (* resize: buckets copied, private new table, its length *)
   hretry : bool;                                  (* the resize was requested before the update: retry afterwards *)
   hres : option Z;                                (* reader: the value read *)
-  hst : nat; hwit : nat; happ : nat }.            (* ghosts *)
+  hst : nat; hwit : nat; happ : nat;              (* ghosts *)
+  hyield : Z -> option Z;                         (* iteration: what has been yielded, per key *)
+  hwitf : Z -> nat }.                             (* ghost: per key, index of the map it was read from *)
 
 Record hcstate := mkHcs {
   lens : list nat;                      (* length (number of root buckets) of every table version *)
@@ -67,11 +75,11 @@ Fixpoint upd_nth {A} (i : nat) (x : A) (l : list A) : list A :=
   end.
 
 Definition set_pc (t : hthread) (p : hpc) : hthread :=
-  mkHth p (hkey t) (hfun t) (hsnap t) (hbi t) (hcop t) (hnt t) (hnlen t) (hretry t) (hres t) (hst t) (hwit t) (happ t).
+  mkHth p (hkey t) (hfun t) (hsnap t) (hbi t) (hcop t) (hnt t) (hnlen t) (hretry t) (hres t) (hst t) (hwit t) (happ t) (hyield t) (hwitf t).
 
 (* after a resize: a writer that asked for it before its update tries again *)
 Definition ret_pc (t : hthread) : hthread :=
-  mkHth (if hretry t then W0 else HDone) (hkey t) (hfun t) (hsnap t) (hbi t) (hcop t) (hnt t) (hnlen t) false (hres t) (hst t) (hwit t) (happ t).
+  mkHth (if hretry t then W0 else HDone) (hkey t) (hfun t) (hsnap t) (hbi t) (hcop t) (hnt t) (hnlen t) false (hres t) (hst t) (hwit t) (happ t) (hyield t) (hwitf t).
 
 Definition with_ths (s : hcstate) (i : nat) (t : hthread) : hcstate :=
   mkHcs (lens s) (stores s) (lk s) (hcur s) (resizing s) (spec s) (hist s) (froz s) (upd_nth i t (hths s)).
@@ -83,7 +91,7 @@ Definition hstep (s : hcstate) (i o : nat) : hcstate :=
   | None => s
   | Some t =>
       match hpc_ t with
-      | W0 => with_ths s i (mkHth W1 (hkey t) (hfun t) (hcur s) (bidx_of s (hcur s) (hkey t)) (hcop t) (hnt t) (hnlen t) (hretry t) (hres t) (hst t) (hwit t) (happ t))
+      | W0 => with_ths s i (mkHth W1 (hkey t) (hfun t) (hcur s) (bidx_of s (hcur s) (hkey t)) (hcop t) (hnt t) (hnlen t) (hretry t) (hres t) (hst t) (hwit t) (happ t) (hyield t) (hwitf t))
       | W1 => if lk s (hsnap t) (hbi t) then s
               else mkHcs (lens s) (stores s) (upd_fun2 (lk s) (hsnap t) (hbi t) true) (hcur s) (resizing s) (spec s) (hist s) (froz s)
                          (upd_nth i (set_pc t W2) (hths s))
@@ -102,16 +110,16 @@ Definition hstep (s : hcstate) (i o : nat) : hcstate :=
                     (lk s) (hcur s) (resizing s)
                     (upd_fun (spec s) (hkey t) (hfun t (spec s (hkey t))))
                     (hist s ++ [upd_fun (spec s) (hkey t) (hfun t (spec s (hkey t)))]) (froz s)
-                    (upd_nth i (mkHth W5 (hkey t) (hfun t) (hsnap t) (hbi t) (hcop t) (hnt t) (hnlen t) (hretry t) (hres t) (hst t) (hwit t) (S (happ t))) (hths s))
+                    (upd_nth i (mkHth W5 (hkey t) (hfun t) (hsnap t) (hbi t) (hcop t) (hnt t) (hnlen t) (hretry t) (hres t) (hst t) (hwit t) (S (happ t)) (hyield t) (hwitf t)) (hths s))
               | _ =>  (* chain full, table over its load factor: unlock, grow, retry *)
                 mkHcs (lens s) (stores s) (upd_fun2 (lk s) (hsnap t) (hbi t) false) (hcur s) (resizing s) (spec s) (hist s) (froz s)
-                    (upd_nth i (mkHth R0 (hkey t) (hfun t) (hsnap t) (hbi t) (hcop t) (hnt t) 1 true (hres t) (hst t) (hwit t) (happ t)) (hths s))
+                    (upd_nth i (mkHth R0 (hkey t) (hfun t) (hsnap t) (hbi t) (hcop t) (hnt t) 1 true (hres t) (hst t) (hwit t) (happ t) (hyield t) (hwitf t)) (hths s))
               end
       | W5 => mkHcs (lens s) (stores s) (upd_fun2 (lk s) (hsnap t) (hbi t) false) (hcur s) (resizing s) (spec s) (hist s) (froz s)
                     (upd_nth i (set_pc t W6) (hths s))
       | W6 => match o with
               | 0 => with_ths s i (set_pc t HDone)
-              | _ => with_ths s i (mkHth R0 (hkey t) (hfun t) (hsnap t) (hbi t) (hcop t) (hnt t) 0 false (hres t) (hst t) (hwit t) (happ t))   (* shrink *)
+              | _ => with_ths s i (mkHth R0 (hkey t) (hfun t) (hsnap t) (hbi t) (hcop t) (hnt t) 0 false (hres t) (hst t) (hwit t) (happ t) (hyield t) (hwitf t))   (* shrink *)
               end
       | R0 => if resizing s then with_ths s i (set_pc t Rwait)
               else
@@ -120,7 +128,7 @@ Definition hstep (s : hcstate) (i o : nat) : hcstate :=
                   let n := len_of s (hcur s) in
                   let nl := if Nat.eqb (hnlen t) 1 then 2 * n else Nat.max 1 (n / 2) in
                   mkHcs (lens s) (stores s) (lk s) (hcur s) true (spec s) (hist s) (froz s)
-                      (upd_nth i (mkHth R1 (hkey t) (hfun t) (hcur s) (hbi t) (fun _ => false) (fun _ => None) nl (hretry t) (hres t) (hst t) (hwit t) (happ t)) (hths s))
+                      (upd_nth i (mkHth R1 (hkey t) (hfun t) (hcur s) (hbi t) (fun _ => false) (fun _ => None) nl (hretry t) (hres t) (hst t) (hwit t) (happ t) (hyield t) (hwitf t)) (hths s))
                 | _ =>  (* takes the flag, finds nothing to do, gives up *)
                   mkHcs (lens s) (stores s) (lk s) (hcur s) true (spec s) (hist s) (froz s) (upd_nth i (set_pc t R3) (hths s))
                 end
@@ -130,30 +138,46 @@ Definition hstep (s : hcstate) (i o : nat) : hcstate :=
               then with_ths s i (mkHth R1 (hkey t) (hfun t) (hsnap t) (hbi t)
                                        (fun b => if Nat.eqb b o then true else hcop t b)
                                        (fun k => if Nat.eqb (bidx_of s (hsnap t) k) o then stores s (hsnap t) k else hnt t k)
-                                       (hnlen t) (hretry t) (hres t) (hst t) (hwit t) (happ t))
+                                       (hnlen t) (hretry t) (hres t) (hst t) (hwit t) (happ t) (hyield t) (hwitf t))
               else s
       | R2 => mkHcs (lens s ++ [hnlen t]) (upd_store (stores s) (length (lens s)) (hnt t)) (lk s) (length (lens s)) (resizing s) (spec s)
                     (hist s) (fun g => if Nat.eqb g (hcur s) then length (hist s) - 1 else froz s g)
                     (upd_nth i (set_pc t R3) (hths s))
       | R3 => mkHcs (lens s) (stores s) (lk s) (hcur s) false (spec s) (hist s) (froz s) (upd_nth i (ret_pc t) (hths s))
       | HDone => s
-      | G0 => with_ths s i (mkHth G1 (hkey t) (hfun t) (hcur s) (hbi t) (hcop t) (hnt t) (hnlen t) (hretry t) (hres t) (length (hist s)) (hwit t) (happ t))
+      | G0 => with_ths s i (mkHth G1 (hkey t) (hfun t) (hcur s) (hbi t) (hcop t) (hnt t) (hnlen t) (hretry t) (hres t) (length (hist s)) (hwit t) (happ t) (hyield t) (hwitf t))
       | G1 => with_ths s i (mkHth GDone (hkey t) (hfun t) (hsnap t) (hbi t) (hcop t) (hnt t) (hnlen t) (hretry t)
                                   (stores s (hsnap t) (hkey t)) (hst t)
-                                  (if Nat.eqb (hsnap t) (hcur s) then length (hist s) - 1 else froz s (hsnap t)) (happ t))
+                                  (if Nat.eqb (hsnap t) (hcur s) then length (hist s) - 1 else froz s (hsnap t)) (happ t) (hyield t) (hwitf t))
       | GDone => s
+      | I0 => with_ths s i (mkHth I1 (hkey t) (hfun t) (hcur s) 0 (hcop t) (hnt t) (hnlen t) (hretry t) (hres t) (length (hist s)) (hwit t) (happ t)
+                                  (fun _ => None) (fun _ => 0))
+      | I1 => if Nat.ltb (hbi t) (len_of s (hsnap t)) then
+                if lk s (hsnap t) (hbi t) then s
+                else with_ths s i (mkHth I1 (hkey t) (hfun t) (hsnap t) (S (hbi t)) (hcop t) (hnt t) (hnlen t) (hretry t) (hres t) (hst t) (hwit t) (happ t)
+                       (fun k => if Nat.eqb (bidx_of s (hsnap t) k) (hbi t) then stores s (hsnap t) k else hyield t k)
+                       (fun k => if Nat.eqb (bidx_of s (hsnap t) k) (hbi t)
+                                 then (if Nat.eqb (hsnap t) (hcur s) then length (hist s) - 1 else froz s (hsnap t))
+                                 else hwitf t k))
+              else with_ths s i (set_pc t IDone)
+      | IDone => s
       end
   end.
 
 Definition hrun (s : hcstate) (sched : list (nat * nat)) : hcstate :=
   fold_left (fun s e => hstep s (fst e) (snd e)) sched s.
 
-(* one table of [n0] >= 1 buckets, empty; every thread is a Compute about to load the table, or a Get *)
-Definition hinit (n0 : nat) (ops : list (Z * option (option Z -> option Z))) : hcstate :=
-  mkHcs [n0] (fun _ _ => None) (fun _ _ => false) 0 false (fun _ => None) [fun _ => None] (fun _ => 0)
-        (map (fun '(k, f) => match f with
-                             | Some f => mkHth W0 k f 0 0 (fun _ => false) (fun _ => None) 0 false None 0 0 0
-                             | None => mkHth G0 k (fun v => v) 0 0 (fun _ => false) (fun _ => None) 0 false None 0 0 0
-                             end) ops).
+(* one table of [n0] >= 1 buckets, empty; every thread is a Compute about to load the table, a Get, or a Range *)
+Inductive hop := HCompute (k : Z) (f : option Z -> option Z) | HGet (k : Z) | HRange.
+
+Definition thread_of (o : hop) : hthread :=
+  match o with
+  | HCompute k f => mkHth W0 k f 0 0 (fun _ => false) (fun _ => None) 0 false None 0 0 0 (fun _ => None) (fun _ => 0)
+  | HGet k => mkHth G0 k (fun v => v) 0 0 (fun _ => false) (fun _ => None) 0 false None 0 0 0 (fun _ => None) (fun _ => 0)
+  | HRange => mkHth I0 0%Z (fun v => v) 0 0 (fun _ => false) (fun _ => None) 0 false None 0 0 0 (fun _ => None) (fun _ => 0)
+  end.
+
+Definition hinit (n0 : nat) (ops : list hop) : hcstate :=
+  mkHcs [n0] (fun _ _ => None) (fun _ _ => false) 0 false (fun _ => None) [fun _ => None] (fun _ => 0) (map thread_of ops).
 
 End Model.
